@@ -51,6 +51,8 @@ def check(F, rep, tier):
     # ---- R02.1 / R02.2 ---------------------------------------------------------------------------------
     if rep.anchor("R02.1", "vcs_data_to_zerv_vars", m):
         rep.fn_seen(m)
+        # helpers of the conversion module (parse_tag_version(..), with_hash_prefix(..)) are seen through
+        m = mir.inlined(F, m, depth=3, ok=lambda F_, caller, cp, g: g is not None and g.kind != "closure" and cp.startswith("crate::pipeline::vcs_data_to_zerv_vars"))
         want = {"distance": {"distance"}, "bumped_branch": {"current_branch"}, "dirty": {"is_dirty"}, "bumped_commit_hash": {"commit_hash_prefix", "commit_hash"},
                 "last_commit_hash": {"commit_hash_prefix", "tag_commit_hash"}, "bumped_timestamp": {"commit_timestamp"}, "last_timestamp": {"tag_timestamp"}, "last_tag_version": {"tag_version"}}
         got = {}
@@ -191,6 +193,8 @@ def check(F, rep, tier):
     lt = F.fn(G + "get_latest_tag")
     if rep.anchor("R02.5", "GitVcs::get_latest_tag", lt):
         rep.fn_seen(lt)
+        # a per-commit helper (get_max_valid_tag_at_commit) is seen through; the walk, the tag listing and the version maximum stay calls
+        lt = mir.inlined(F, lt, depth=2, keep=("find_max_version_tag", "get_commits_in_topo_order", "get_all_tags_from_commit_hash", "filter_only_valid_tags", "run_git_command"))
         # returns at the first commit with a valid tag: a `return Ok(Some(max))` inside the loop
         in_loop_ret = False
         for bi, si, st in lt.stmts():
